@@ -64,7 +64,7 @@ func (d *Document) Clone() *Document {
 }
 
 func (d *Document) NextLexeme() (lexeme.LexEvent, error) {
-	return d.nextLexeme()
+	return nextLexeme(d.scanner)
 }
 
 func (d *Document) Len() (uint, error) {
@@ -74,10 +74,8 @@ func (d *Document) Len() (uint, error) {
 }
 
 func (d *Document) computeLen() (length uint, err error) {
-	// Iterate through all lexemes until we reach the end
-	// We should rewind here in case we call NextLexeme method.
-	d.rewind()
-	defer d.rewind()
+	// Iterate through all lexemes until we reach the end.
+	// A private scanner is used in order not to disturb the NextLexeme stream.
 	defer func() {
 		r := recover()
 		if r == nil {
@@ -91,7 +89,7 @@ func (d *Document) computeLen() (length uint, err error) {
 		err = rErr
 	}()
 
-	return d.scanner.Length(), err
+	return d.newScanner().Length(), err
 }
 
 func (d *Document) Check() error {
@@ -102,13 +100,12 @@ func (d *Document) Check() error {
 
 func (d *Document) check() error {
 	// Iterate through all lexemes until we reach the end or get some error.
-	// We should rewind here in case we call NextLexeme method.
-	d.rewind()
-	defer d.rewind()
+	// A private scanner is used in order not to disturb the NextLexeme stream.
+	sc := d.newScanner()
 
 	var jsonLexCounter uint
 	for {
-		_, err := d.nextLexeme()
+		_, err := nextLexeme(sc)
 		if err == nil {
 			jsonLexCounter++
 			continue
@@ -125,7 +122,7 @@ func (d *Document) check() error {
 	}
 }
 
-func (d *Document) nextLexeme() (lex lexeme.LexEvent, err error) {
+func nextLexeme(sc *scanner) (lex lexeme.LexEvent, err error) {
 	defer func() {
 		r := recover()
 		if r == nil {
@@ -139,7 +136,7 @@ func (d *Document) nextLexeme() (lex lexeme.LexEvent, err error) {
 		err = rErr
 	}()
 
-	lex, ok := d.scanner.Next()
+	lex, ok := sc.Next()
 	if !ok {
 		return lexeme.LexEvent{}, io.EOF
 	}
@@ -152,6 +149,12 @@ func (d *Document) nextLexeme() (lex lexeme.LexEvent, err error) {
 
 // rewind rewinds document to the beginning.
 func (d *Document) rewind() {
-	d.scanner = newScanner(d.file)
-	d.scanner.allowTrailingNonSpaceCharacters = d.allowTrailingNonSpaceCharacters
+	d.scanner = d.newScanner()
+}
+
+// newScanner creates a scanner standing at the beginning of the document.
+func (d *Document) newScanner() *scanner {
+	sc := newScanner(d.file)
+	sc.allowTrailingNonSpaceCharacters = d.allowTrailingNonSpaceCharacters
+	return sc
 }
